@@ -3,7 +3,9 @@ import AioslskVerif.Spec.TransferGraph
 /-!
 Line protocol for K_C03 (one op per line → one output line).
 
-  `cfg <upload|download> <slowCancel 0|1> <slowFs 0|1> <slowListener 0|1> <current|captured>`  → `ok`
+  `cfg <upload|download> <slowCancel 0|1> <slowFs 0|1> <listeners> <current|captured>`  → `ok`
+     `<listeners>` = one digit per entry of `transfer.state_listeners`, in registration order:
+     `1` = that listener suspends until a `resume`, `0` = it does not; `-` = no listener
   `spec`   the frozen graph: `<dir>:<FROM>><TO>` for every documented edge, `<dir>:<method>=<TARGET>`
   `init <STATE> <fr> <ar> <rq> <piq> <qa> <ua> <st> <ct> <lp> <fx> <fs> <b> <tl>`  (`-` = None) → `ok`
   `create <id> <method> <reason|-> <remotely 0|1>`   evaluate `transfer.state.<method>(…)`     → `ok`
@@ -12,7 +14,7 @@ Line protocol for K_C03 (one op per line → one output line).
   `mcall <id> <abort|queue|pause>`                    `TransferManager.<method>(transfer)`      → `ok`
   `resume` | `spawn` | `setfile`                                                               → `ok`
   `obs`        what is observable now (and since the last `obs`); then the clock ticks
-     → `<STATE> lock=<0|1> w=<waiters> ev=<OLD>NEW,…|- ret=<id>:<T|F|R>,…|- <fields>`
+     → `<STATE> lock=<0|1> w=<waiters> ev=<listener>:<OLD>NEW,…|- ret=<id>:<T|F|R>,…|- <fields>`
         (`R` = `InvalidStateTransition` raised by a manager call)
 Errors: `err <enum>` (bad-op, bad-arg, no-such-call, duplicate-id, not-a-manager-method).
 -/
@@ -30,6 +32,9 @@ def optNat? (s : String) : Option (Option Nat) :=
 
 def bool? (s : String) : Option Bool :=
   if s = "0" then some false else if s = "1" then some true else none
+
+def listeners? (s : String) : Option (List Bool) :=
+  if s = "-" then some [] else s.toList.mapM fun c => bool? c.toString
 
 def showOpt : Option Nat → String
   | none => "-"
@@ -49,7 +54,7 @@ def observe (d : DState) : String :=
   let x := d.x
   let fresh := (x.trace.take (x.trace.length - d.seen)).reverse
   let evs := fresh.filterMap fun
-    | .event _ a b => some s!"{a.name}>{b.name}"
+    | .event _ li a b => some s!"{li}:{a.name}>{b.name}"
     | _ => none
   let rets := fresh.filterMap fun
     | .ret id ok => some s!"{id}:{if ok then "T" else if d.mgrIds.contains id then "R" else "F"}"
@@ -67,9 +72,9 @@ def mkCall (d : DState) (id m r q : String) : Except String Call :=
 def handle (d : DState) (line : String) : DState × String :=
   match (line.splitOn " ").filter (· ≠ "") with
   | ["cfg", dir, sc, sf, sl, mode] =>
-    match Dir.ofName? dir, bool? sc, bool? sf, bool? sl with
+    match Dir.ofName? dir, bool? sc, bool? sf, listeners? sl with
     | some dir, some sc, some sf, some sl =>
-      let mk (m : Mode) : Cfg := { dir := dir, slowCancel := sc, slowFs := sf, slowListener := sl, mode := m }
+      let mk (m : Mode) : Cfg := { dir := dir, slowCancel := sc, slowFs := sf, listeners := sl, mode := m }
       if mode = "current" then ({ d with cfg := mk .current }, "ok")
       else if mode = "captured" then ({ d with cfg := mk .captured }, "ok")
       else (d, "err bad-arg")
